@@ -47,6 +47,10 @@ const STEP_CAP: usize = 20000;
 fn content_bytes(run_tag: u64, c: u8) -> Vec<u8> {
     // Unique per run so that a leaked table entry of an earlier (violating)
     // run cannot interfere with this one.
+    if c == 2 {
+        // The empty string is a legitimate content too (shared by all runs).
+        return Vec::new();
+    }
     let mut v = format!("rbxsim:{:016x}:{}", run_tag, c).into_bytes();
     // Vary lengths a little: content 1 is long.
     if c == 1 {
